@@ -24,7 +24,7 @@ func init() {
 			"oracle: run(S1..Sn,B) == run(S1..Sk,B) ++ run(Sk+1..Sn,B') for every k, and == the one-by-one chain, where B' is B updated by the postings and by the save rule in statement order; metadata of the whole == key-wise override of the parts; the whole fails iff a part fails, with the same error class; " +
 			"non-trivial = a later statement draws on an account that an earlier statement credited, debited or saved from; distinct = script text + sheet",
 		Assumptions: []string{"scripts have no variables reading balances (the property's own restriction)", "the save rule used to compute B' is the one stated in C08"},
-		QuickBudget: 70 * time.Second,
+		QuickBudget: 240 * time.Second,
 		ThoroBudget: 12 * time.Minute,
 		Run:         runC09,
 	})
